@@ -1254,7 +1254,62 @@ func scrubSwitch(repo string) (bool, bool) {
 	} else {
 		ok = false
 	}
-	return dump && handler, ok
+	return dump && handler && scrubUnconditional(repo), ok
+}
+
+// scrubUnconditional: RedactDumpJSON decodes whatever it is given - before the Decode call the only way out is the empty
+// input (`if len(raw) == 0`), and nothing but len / the decoder's reader looks at the text
+func scrubUnconditional(repo string) bool {
+	_, f, err := ParseGoFile(repo, "pkg/configmanager/redact.go")
+	if err != nil {
+		return false
+	}
+	fd := FindFunc(f, "", "RedactDumpJSON")
+	if fd == nil || fd.Type.Params == nil || len(fd.Type.Params.List) == 0 || len(fd.Type.Params.List[0].Names) == 0 {
+		return false
+	}
+	raw := fd.Type.Params.List[0].Names[0].Name
+	decoded := false
+	for _, st := range fd.Body.List {
+		hasDecode := false
+		ast.Inspect(st, func(n ast.Node) bool {
+			if c, ok := n.(*ast.CallExpr); ok && strings.HasSuffix(exprStr(c.Fun), ".Decode") {
+				hasDecode = true
+			}
+			return true
+		})
+		if hasDecode {
+			decoded = true
+			break
+		}
+		switch x := st.(type) {
+		case *ast.IfStmt:
+			if exprStr(x.Cond) != "len("+raw+") == 0" {
+				return false
+			}
+		default:
+			// declarations / the decoder set-up: the text may only be handed to a reader
+			bad := false
+			ast.Inspect(st, func(n ast.Node) bool {
+				if c, ok := n.(*ast.CallExpr); ok {
+					fn := exprStr(c.Fun)
+					for _, a := range c.Args {
+						if exprStr(a) == raw && fn != "bytes.NewReader" && fn != "len" {
+							bad = true
+						}
+					}
+				}
+				if _, ok := n.(*ast.ReturnStmt); ok {
+					bad = true
+				}
+				return true
+			})
+			if bad {
+				return false
+			}
+		}
+	}
+	return decoded
 }
 
 func genCfgTypes(repo string) (string, error) {
@@ -1377,7 +1432,7 @@ func genCfgTypes(repo string) (string, error) {
 	pairs("cfg_keylike_fields", keyLikeFields(pkgs))
 	scrub, sok := scrubSwitch(repo)
 	ok = ok && sok
-	fmt.Fprintf(&b, "(* every serialisation of the dump (DumpJSON and each json.Marshal* of admin ConfigDump) is passed through RedactDumpJSON *)\nDefinition src_dump_scrubs_output := %v.\n", scrub)
+	fmt.Fprintf(&b, "(* every serialisation of the dump (DumpJSON and each json.Marshal* of admin ConfigDump) is passed through RedactDumpJSON, which decodes whatever it is given (no look at the text before the Decode other than the empty-input exit) *)\nDefinition src_dump_scrubs_output := %v.\n", scrub)
 	b.WriteString("(* path-mode file naming: operations on the item name, in evaluation order *)\n")
 	fmt.Fprintf(&b, "Definition src_max_file_path : nat := %d.\n", v2.MaxFilePath)
 	for _, rn := range [][2]string{{"ClusterManagerConfig", "src_fname_ops_cluster"}, {"RouterConfiguration", "src_fname_ops_router"}} {
